@@ -152,7 +152,7 @@ def pHistory : TP (Cache × List Op) := do
   let hasShift ← nat
   let _permV ← nat; let _maskF16 ← nat; let _maxNodes ← nat
   let ops ← listOf pOp
-  let v : Variant := { fixDefrag := vbits % 2 = 1, fixResume := (vbits / 2) % 2 = 1, fixDiv := (vbits / 4) % 2 = 1, perSeqBatch := (vbits / 8) % 2 = 1, atomicRemove := (vbits / 16) % 2 = 1 }
+  let v : Variant := { fixDefrag := vbits % 2 = 1, fixResume := (vbits / 2) % 2 = 1, fixDiv := (vbits / 4) % 2 = 1, perSeqBatch := (vbits / 8) % 2 = 1, atomicRemove := (vbits / 16) % 2 = 1, atomicWrapperRemove := (vbits / 32) % 2 = 1 }
   pure (init v w maxSeq capacity maxBatch cpad bpad (hasShift != 0), ops)
 
 def runHistory (layout : Bool) (c : Cache) (ops : List Op) : String :=
@@ -190,7 +190,7 @@ def wStepOp (seqIds : List Nat) (a0 : WAcc) (op : Op) : WAcc :=
     let cs1 := wCopyPrefix a.cs src dst len
     fin cs1 "C" (cs1.map (fun _ => "")) false
   | .rm seq b e =>
-    let (cs1, r) := wRemove a.cs seq b e
+    let (cs1, r) := wRemoveV a.cs seq b e
     let rs := match r with | .ok => "ok" | .shared => "err:shared" | .notsup => "err:notsup"
     fin cs1 s!"R:{rs}" (cs1.map (fun _ => "")) false
   | .q seq pos =>
@@ -212,7 +212,7 @@ def pWHistory : TP (List Cache × List Op) := do
   let hasShift ← nat
   let _permV ← nat; let _maskF16 ← nat; let _maxNodes ← nat
   let ops ← listOf pOp
-  let v : Variant := { fixDefrag := vbits % 2 = 1, fixResume := (vbits / 2) % 2 = 1, fixDiv := (vbits / 4) % 2 = 1, perSeqBatch := (vbits / 8) % 2 = 1, atomicRemove := (vbits / 16) % 2 = 1 }
+  let v : Variant := { fixDefrag := vbits % 2 = 1, fixResume := (vbits / 2) % 2 = 1, fixDiv := (vbits / 4) % 2 = 1, perSeqBatch := (vbits / 8) % 2 = 1, atomicRemove := (vbits / 16) % 2 = 1, atomicWrapperRemove := (vbits / 32) % 2 = 1 }
   let swa := init v w maxSeq capacity maxBatch cpad bpad (hasShift != 0)
   let full := init v none maxSeq capacity maxBatch cpad bpad (hasShift != 0)
   pure (if order = 2 then [full, swa] else [swa, full], ops)
